@@ -12,8 +12,10 @@ package main
 
 import (
 	"fmt"
+	"io"
 	"math/rand"
 	"net/http"
+	"net/http/httptest"
 	"sort"
 	"strings"
 	"sync"
@@ -154,6 +156,113 @@ func round(r *vh.Run, i int, ov *overlap) {
 	r.Distinct("stores", kind.String())
 }
 
+type pipeBody struct{ r *io.PipeReader }
+
+func (p *pipeBody) Read(b []byte) (int, error) { return p.r.Read(b) }
+func (p *pipeBody) Close() error               { return p.r.Close() }
+
+// sessionPairs: two requests on ONE upload session in flight together, each on its own goroutine and with nothing
+// in the harness ordering them (the detector decides on happens-before, so an ordering through the harness would hide
+// a race): a streamed PATCH that keeps delivering pieces for a few milliseconds against a cancel, a completing PUT, a
+// status query, a second PATCH, an eviction (sessions beyond the bound created by another client) or the expiry
+// timer.  The first write after the other request's effect is the interesting access.
+func sessionPairs(r *vh.Run, i int) {
+	rng := r.Rand(9_000_000 + i)
+	kind := []vh.StoreKind{vh.Dir, vh.Mem, vh.MemDir}[i%3]
+	root := ""
+	if kind != vh.Mem {
+		root = r.TempDir("c13s")
+		defer vh.RemoveAll(root)
+	}
+	pol := vh.Neutral
+	others := []string{"cancel", "put", "status", "patch", "evict", "expire"}
+	c := vh.Conf(kind, root, pol)
+	c.Storage.GC.RepoUploadMax = 2
+	srvLong := vh.New(c)
+	defer srvLong.Close()
+	pe := pol
+	pe.Grace = 25 * time.Millisecond
+	ce := vh.Conf(kind, root, pe)
+	for t := 0; t < 12; t++ {
+		other := others[(i+t)%len(others)]
+		srv := srvLong
+		if other == "expire" {
+			srv = vh.New(ce) // sessions idle for 25 ms are expired by the cache timer
+		}
+		repo := fmt.Sprintf("s%d", t%2)
+		rs := vh.Do(srv, vh.Req{Method: "POST", URL: "/v2/" + repo + "/blobs/uploads/"})
+		loc := rs.H.Get("Location")
+		if rs.Status != 202 || loc == "" {
+			continue
+		}
+		path := loc[:strings.Index(loc, "?")]
+		first := []byte(fmt.Sprintf("first %d.%d;", i, t))
+		if ps := vh.Do(srv, vh.Req{Method: "PATCH", URL: loc, Body: first}); ps.Status == 202 && ps.H.Get("Location") != "" {
+			loc = ps.H.Get("Location")
+		}
+		pr, pw := io.Pipe()
+		req := httptest.NewRequest("PATCH", loc, &pipeBody{r: pr})
+		req.ContentLength = -1
+		var wg sync.WaitGroup
+		wg.Add(3)
+		go func() { // the handler of the streamed PATCH
+			defer wg.Done()
+			w := httptest.NewRecorder()
+			func() {
+				defer func() { _ = recover() }()
+				srv.ServeHTTP(w, req)
+			}()
+			_ = pr.Close()
+		}()
+		pause := other == "expire"
+		go func() { // its sender
+			defer wg.Done()
+			for k := 0; k < 24; k++ {
+				if _, err := pw.Write([]byte(fmt.Sprintf("piece %d;", k))); err != nil {
+					break
+				}
+				if pause && k == 8 {
+					time.Sleep(45 * time.Millisecond)
+				} else {
+					time.Sleep(150 * time.Microsecond)
+				}
+			}
+			_ = pw.Close()
+		}()
+		delay := time.Duration(rng.Intn(2500)) * time.Microsecond
+		go func() { // the other request
+			defer wg.Done()
+			time.Sleep(delay)
+			switch other {
+			case "cancel":
+				vh.Do(srv, vh.Req{Method: "DELETE", URL: path})
+			case "put":
+				vh.Do(srv, vh.Req{Method: "PUT", URL: loc + "&digest=" + vh.DigestOf("sha256", first)})
+			case "status":
+				for k := 0; k < 5; k++ {
+					vh.Do(srv, vh.Req{Method: "GET", URL: path})
+				}
+			case "patch":
+				vh.Do(srv, vh.Req{Method: "PATCH", URL: loc, Body: []byte("second writer")})
+			case "evict":
+				for k := 0; k < 4; k++ {
+					if e := vh.Do(srv, vh.Req{Method: "POST", URL: "/v2/" + repo + "/blobs/uploads/"}); e.Status == 202 {
+						vh.Do(srv, vh.Req{Method: "PATCH", URL: e.H.Get("Location"), Body: []byte("x")})
+					}
+				}
+			case "expire":
+				// nothing to send: the cache timer is the other party
+			}
+		}()
+		wg.Wait()
+		r.Count("same_session_pairs", 1)
+		r.Distinct("same_session_pair_kinds", other+"/"+kind.String())
+		if other == "expire" {
+			_ = srv.Close()
+		}
+	}
+}
+
 func main() {
 	r := vh.Start()
 	if strings.HasPrefix(r.Variant(), "vsync") {
@@ -161,7 +270,15 @@ func main() {
 	}
 	ov := &overlap{active: map[string]int{}, pairs: map[string]int{}}
 	n := r.N(10, 80)
-	vh.Parallel(n, 3, func(i int) { round(r, i, ov) })
+	ns := r.N(18, 240)
+	vh.Parallel(n+ns, 3, func(i int) {
+		if i < n {
+			round(r, i, ov)
+		} else {
+			sessionPairs(r, i-n)
+		}
+	})
+	r.Require("same_session_pairs", int64(ns*6))
 	ov.mu.Lock()
 	var ps []string
 	for p, c := range ov.pairs {
@@ -177,5 +294,5 @@ func main() {
 	r.Require("rounds", int64(n))
 	r.Require("requests", int64(n*400))
 	r.RequireDistinct("overlapping_handler_pairs", 40)
-	r.Finish("rounds of 8-13 stress clients (chunked uploads with expiry and eviction underneath, image and artifact pushes, referrers reads, deletes, listings) plus 4 readers with many client addresses (rate limiter), paged and filtered referrers reads against a 15 ms / 3-entry page cache, on 1-2 shared repositories with collection every 5-10 ms, grace period 20-60 ms or 1 h, directory / memory / memory-over-directory stores, under the Go race detector; the oracle is the detector's report log (read by the driver); a case is one round, distinct = handler pairs that actually overlapped in time", "rounds", "overlapping_handler_pairs")
+	r.Finish("rounds of 8-13 stress clients (chunked uploads with expiry and eviction underneath, image and artifact pushes, referrers reads, deletes, listings) plus 4 readers with many client addresses (rate limiter), paged and filtered referrers reads against a 15 ms / 3-entry page cache, on 1-2 shared repositories with collection every 5-10 ms, grace period 20-60 ms or 1 h, directory / memory / memory-over-directory stores; plus directed pairs on ONE upload session (a streamed PATCH against cancel / completing PUT / status / second PATCH / eviction / expiry timer, unordered by the harness); under the Go race detector; the oracle is the detector's report log (read by the driver); a case is one round, distinct = handler pairs that actually overlapped in time", "rounds", "overlapping_handler_pairs")
 }
